@@ -3,6 +3,7 @@
 package main
 
 import (
+	"fmt"
 	"runtime"
 	"strings"
 	"sync/atomic"
@@ -21,21 +22,29 @@ type vfQuiesceStats struct {
 
 var vfQStats vfQuiesceStats
 
+// vfQWhy describes why the last failed quiescence wait did not succeed.
+var vfQWhy string
+
+var vfChanWhy string
+
 func vfChannelsEmpty() bool {
 	h := globals.hub
 	if h == nil {
 		return true
 	}
 	if len(h.routeCli)+len(h.routeSrv)+len(h.join)+len(h.unreg)+len(h.meta)+len(h.userStatus) != 0 {
+		vfChanWhy = "hub channel"
 		return false
 	}
 	if len(globals.usersUpdate) != 0 {
+		vfChanWhy = "usersUpdate"
 		return false
 	}
 	ok := true
 	h.topics.Range(func(_, v any) bool {
 		t := v.(*Topic)
 		if len(t.clientMsg)+len(t.serverMsg)+len(t.reg)+len(t.unreg)+len(t.meta)+len(t.supd)+len(t.exit) != 0 {
+			vfChanWhy = fmt.Sprintf("topic %s clientMsg=%d serverMsg=%d reg=%d unreg=%d meta=%d supd=%d exit=%d", t.name, len(t.clientMsg), len(t.serverMsg), len(t.reg), len(t.unreg), len(t.meta), len(t.supd), len(t.exit))
 			ok = false
 			return false
 		}
@@ -48,6 +57,7 @@ func vfChannelsEmpty() bool {
 	ss.lock.Lock()
 	for _, s := range ss.sessCache {
 		if len(s.send)+len(s.stop)+len(s.detach) != 0 {
+			vfChanWhy = fmt.Sprintf("session %s (ua %s) send=%d stop=%d detach=%d terminating=%d", s.sid, s.userAgent, len(s.send), len(s.stop), len(s.detach), atomic.LoadInt32(&s.terminating))
 			ok = false
 			break
 		}
@@ -133,9 +143,22 @@ func (e *vfEnv) vfQuiesceD(d time.Duration) bool {
 	var lastIn, lastOut int64 = -1, -1
 	for {
 		atomic.AddInt64(&vfQStats.Samples, 1)
-		ok := vfmem.A.InFlight() == 0 && vfChannelsEmpty() && (e.push == nil || len(e.push.in)+len(e.push.ch) == 0)
+		why := ""
+		ok := true
+		switch {
+		case vfmem.A.InFlight() != 0:
+			ok, why = false, "store call in flight"
+		case !vfChannelsEmpty():
+			ok, why = false, "server channel not empty: "+vfChanWhy
+		case e.push != nil && len(e.push.in)+len(e.push.ch) != 0:
+			ok, why = false, "push queue not empty"
+		}
 		if ok {
-			ok, _ = vfGoroutinesIdle()
+			var busy string
+			ok, busy = vfGoroutinesIdle()
+			if !ok {
+				why = "goroutine busy: " + busy
+			}
 		}
 		in, out := atomic.LoadInt64(&e.framesIn), atomic.LoadInt64(&e.statsOut)
 		if ok {
@@ -162,6 +185,10 @@ func (e *vfEnv) vfQuiesceD(d time.Duration) bool {
 		lastIn, lastOut = in, out
 		if time.Now().After(deadline) {
 			atomic.AddInt64(&vfQStats.Timeouts, 1)
+			if why == "" {
+				why = fmt.Sprintf("frame counters keep moving or differ: in=%d out=%d", in, out)
+			}
+			vfQWhy = why
 			return false
 		}
 		if good > 0 || stable > 0 {
